@@ -157,6 +157,64 @@ theorem windowSpecOps_all_ops (p : Entry → Bool) (L : List Entry) (o : StreamO
     omega
   · rw [f _ (List.Sublist.refl _)]
 
+/-- the first entry the listing from `h` on (one entry long) answers with: what `Get(h)` looks at -/
+theorem getOps_shape (p : Entry → Bool) (L : List Entry) (h : Nat) (hnd : HashNodup L) (e : Entry)
+    (he : e ∈ L) (hh : e.hash = h) :
+    ∃ rest, queryWinOps p L { gte := some h, amount := some 1 } = ((e :: rest).filter p).take 1 ∧
+      ∀ x ∈ rest, x ∈ L ∧ x ≠ e := by
+  obtain ⟨i, hi, hlt⟩ := findIdx?_of_mem he hh
+  have hb : boundOk L { gte := some h, amount := some 1 } := by
+    intro h' hh'
+    rcases hh' with h1 | h1 | h1 | h1 <;> simp at h1
+    exact ⟨e, he, by rw [hh, h1]⟩
+  have hc : NoClash { gte := some h, amount := some (1 : Int) } := by unfold NoClash; simp
+  rw [queryWinOps_eq_windowSpecOps p L _ hnd hb hc]
+  have hn : normAmount (some 1) L.length = 1 := by simp [normAmount]
+  obtain ⟨_, hp, _⟩ := List.findIdx?_eq_some_iff_getElem.mp hi
+  have hLi : L[i] = e :=
+    hashNodup_inj hnd (List.getElem_mem hlt) he (by rw [hh]; exact beq_iff_eq.mp hp)
+  refine ⟨L.drop (i + 1), ?_, ?_⟩
+  · unfold windowSpecOps
+    simp only [hi, Option.getD_some, hn]
+    rw [List.drop_eq_getElem_cons hlt, hLi]
+  · intro x hx
+    refine ⟨List.mem_of_mem_drop hx, ?_⟩
+    intro hxe
+    subst hxe
+    -- `x` sits at index `i` and again behind it: two entries with one hash
+    obtain ⟨j, hj, hxj⟩ := List.getElem_of_mem hx
+    rw [List.length_drop] at hj
+    rw [List.getElem_drop] at hxj
+    have hnd' : (L.map (·.hash)).Pairwise (· ≠ ·) := hnd
+    have := (List.pairwise_iff_getElem.mp hnd') i (i + 1 + j)
+      (by rw [List.length_map]; exact hlt) (by rw [List.length_map]; omega) (by omega)
+    simp only [List.getElem_map] at this
+    rw [hLi, hxj] at this
+    exact this rfl
+
+/-- **`Get` of an operation returns that entry** -/
+theorem getOps_of_operation (p : Entry → Bool) (L : List Entry) (h : Nat) (hnd : HashNodup L) (e : Entry)
+    (he : e ∈ L) (hh : e.hash = h) (hop : p e = true) :
+    queryWinOps p L { gte := some h, amount := some 1 } = [e] := by
+  obtain ⟨rest, hq, _⟩ := getOps_shape p L h hnd e he hh
+  rw [hq, List.filter_cons_of_pos hop]
+  rfl
+
+/-- **`Get` of an entry that is not an operation never answers with that entry**: what the listing hands
+back (if anything) is ANOTHER entry of the log - which is what the Go `Get` now tests before it answers
+(finding F69: it answered with it) -/
+theorem getOps_of_non_operation (p : Entry → Bool) (L : List Entry) (h : Nat) (hnd : HashNodup L) (e : Entry)
+    (he : e ∈ L) (hh : e.hash = h) (hop : p e = false) :
+    ∀ x ∈ queryWinOps p L { gte := some h, amount := some 1 }, x ≠ e ∧ x.hash ≠ h := by
+  obtain ⟨rest, hq, hrest⟩ := getOps_shape p L h hnd e he hh
+  intro x hx
+  rw [hq, List.filter_cons_of_neg (by simp [hop])] at hx
+  have hxr : x ∈ rest := (List.mem_filter.mp (List.mem_of_mem_take hx)).1
+  obtain ⟨hxL, hne⟩ := hrest x hxr
+  refine ⟨hne, ?_⟩
+  intro hxh
+  exact hne (hashNodup_inj hnd hxL he (by rw [hxh, hh]))
+
 /-- the review's witness: with the bound on an entry that is not an operation, the window is taken
 from its POSITION - the version before looked the bound up among the operations only, did not find it
 and started from the first entry -/
